@@ -28,6 +28,7 @@ package cache
 
 import (
 	"bytes"
+	"errors"
 	"sync"
 	"time"
 
@@ -54,6 +55,9 @@ const (
 
 // defaultHitForPassSeconds default hit for pass: 300 seconds
 const defaultHitForPassSeconds = 300
+
+// ErrInvalidStoreData the data from store is invalid
+var ErrInvalidStoreData = errors.New("invalid data from store")
 
 type (
 	// waitResult the result of fetching, it's sent to the waiting requests
@@ -199,7 +203,21 @@ func (hc *httpCache) initFromStore() (err error) {
 	if err != nil {
 		return
 	}
-	return hc.FromBytes(data)
+	// 先解析至临时对象，解析成功才使用，避免数据异常时只恢复了部分字段
+	tmp := &httpCache{}
+	err = tmp.FromBytes(data)
+	if err != nil {
+		return
+	}
+	// 只有hit与hit for pass的缓存才会保存，其它状态的均为无效数据
+	if tmp.status != StatusHit && tmp.status != StatusHitForPass {
+		return ErrInvalidStoreData
+	}
+	hc.status = tmp.status
+	hc.response = tmp.response
+	hc.createdAt = tmp.createdAt
+	hc.expiredAt = tmp.expiredAt
+	return
 }
 
 // saveToStore save cache to store
